@@ -75,7 +75,7 @@ def cases(run: Run):
         if rng.random() < 0.25 and imps:
             # a second impulse at the very instant of the first
             im0 = imps[0]
-            imps.append({"id": len(imps), "t": im0["t"], "dv": [0.0, rng.choice([0.02, -0.03]), 0.001], "frame": rng.choice(["eci", "ntw"]), "planned": False})
+            imps.append({"id": max(im["id"] for im in imps) + 1, "t": im0["t"], "dv": [0.0, rng.choice([0.02, -0.03]), 0.001], "frame": rng.choice(["eci", "ntw"]), "planned": False})
         out.append({"op": "impulse", "start": start.isoformat(), "dt": dt, "N": N, "imps": imps})
     # starts on which whole fractions of a day make scenario times land exactly on step boundaries
     for start, dt, t in ((datetime(2021, 3, 30, 12, 0, 0), 300, 2700), (datetime(2021, 3, 30, 12, 0, 0), 60, 2700), (datetime(2021, 3, 30, 0, 0, 0), 675, 675),
